@@ -507,6 +507,25 @@ class Order:
                 return self.variant_of(body, rv["ops"][0], depth + 1)
         return None
 
+    def root_local(self, body, op, depth=0):
+        """the named local an operand is borrowed / copied from (for position-free keys)."""
+        p = op_place(op)
+        if p is None or depth > 8:
+            return None
+        l = p["l"]
+        if l in body.name_of:
+            return l
+        for d in body.defs().get(l, []):
+            if d[0] == "assign":
+                rv = d[3]
+                if rv["k"] in ("ref", "rawptr"):
+                    return self.root_local(body, {"c": rv["place"]}, depth + 1)
+                if rv["k"] in ("use", "cast") and rv["ops"]:
+                    return self.root_local(body, rv["ops"][0], depth + 1)
+            elif d[0] == "call" and d[2]["args"]:
+                return self.root_local(body, d[2]["args"][0], depth + 1)
+        return l
+
     def guard_local_of(self, body, op, depth=0):
         """the guard-carrying local a `&*guard`-style operand derives from, else None."""
         if depth > 8:
